@@ -22,7 +22,7 @@ rundemo() {
 rundemo without
 git apply "$PATCH" || { echo "patch does not apply"; cd /; git -C /repo worktree remove --force "$W"; exit 2; }
 go build ./... || echo "DOES NOT BUILD"
-echo "repo tests with change (failures listed):"; go test -count=1 $(go list ./... | grep -v sgip/sgip12) 2>&1 | grep -v "^ok\|no test files" | head -10
+[ -n "${SKIPTESTS:-}" ] || { echo "repo tests with change (failures listed):"; go test -count=1 $(go list ./... | grep -v sgip/sgip12) 2>&1 | grep -v "^ok\|no test files" | head -10; }
 rundemo with
 cd ${VERIF_HOME:-/verif}
 for p in "$@"; do
